@@ -384,12 +384,12 @@ def units(ctx):
 
 
 SPEC = Spec(
-    lean=['IntervalMeasure.lean', 'Folds.lean'],
+    lean=['IntervalMeasure.lean', 'Folds.lean', 'Sweep.lean'],
     prop=PROP, level="other",
     functions=[(UT, "merge_kernel_intervals"), (BA, "BreakdownAnalysis._get_gpu_kernel_type_time"), (BA, "BreakdownAnalysis._aggr_gpu_kernel_time"),
                (BA, "BreakdownAnalysis.get_gpu_kernel_breakdown")],
     units=units, bounded=[Bounded("tables_vs_oracles", bounded), Bounded("aggr_direct", bounded_aggr), Bounded("history_independence", history.stage(PROP, "kernel_breakdown", "gen"))],
-    trusted=["Lean lemmas L1, L3, L4 for the measure reading of the sweep", "a & 2^k on non-negative ints read as (a div 2^k) mod 2",
+    trusted=["the measure reading of the sweep is Lean: L1 / L4 (lean/IntervalMeasure.lean) and L3 (lean/Sweep.lean), machine-checked; that the tables of /repo satisfy their hypotheses (rows, order, running = prefix sum, term = next time - time) is the z3 part; the instantiation of the lemmas with those facts is by reading, not mechanised", "a & 2^k on non-negative ints read as (a div 2^k) mod 2",
              "groupby(name)[col].agg([sum, max, min, mean, std]) = one row per name holding that group's aggregates (assumed pandas contract; the aggregator's postconditions are "
              "stated over these aggregate functions); cumsum / quantile kept abstract (the obligations do not depend on the threshold); a per-name total is non-negative (WF5)",
              "conservation of the per-kernel sums: partition obligation + assumed aggregate contract + Lean sum_filter_add_sum_filter_not; 'at most num_kernels named rows': "
